@@ -38,7 +38,9 @@ LEVEL_TEXT = (
     "engine preferred in turn), processed and executed again.  Fault injection: in half of the cases a preliminary "
     "process() call is interrupted by an exception raised by the n-th hook call; it must propagate, leave the input tree "
     "unchanged (modulo complete materialization payloads, never a transfer payload), and the regular calls that follow "
-    "must give the right rows with at most one completed hook call per materialization."
+    "must give the right rows with at most one completed hook call per materialization.  Third kind of engine: iteration-"
+    "rooted trees are transferred to a GenericConcreteEngine subclass that has no payloads for trivial leaves and chained "
+    "with its doomed leaf; process() must prune the chain to the processed transfer, whose payload holds the rows."
 )
 LEVEL_NOTE = "trusts: harness Processor subclass (vf/core/proc.py) is truthful; ev_multi labels; SQLite; P1, P4, P8"
 RULE = (
@@ -287,6 +289,55 @@ def reuse_cached_materializations(prog, rels, leaves, env, proc, stats, ctx):
         stats.c["reuse:cached-materialization"] += 1
 
 
+def bare_engine_probe(tree, truth, env, proc, stats, ctx):
+    """A third kind of engine: a GenericConcreteEngine subclass that keeps the base-class payloads (None) for doomed and
+    join-identity leaves.  The tree is transferred there and chained with that engine's doomed leaf (either side); the
+    Processor must evaluate the transfer (the chain is pruned to it) and must cope with the payload-less leaf."""
+    from lsst.daf.relation import ColumnError, EngineError, GenericConcreteEngine, MarkerRelation
+
+    class Bare(GenericConcreteEngine):
+        pass
+
+    bare = Bare(name="bare")
+    try:
+        moved = tree.transferred_to(bare)
+        doomed = bare.make_doomed_relation(set(tree.columns), ["nothing here"], name="bare_doomed")
+        probes = [("chain(tree -> bare engine, doomed leaf of the bare engine)", moved.chain(doomed)), ("chain(doomed leaf of the bare engine, tree -> bare engine)", doomed.chain(moved)), ("the bare engine's doomed leaf alone", doomed)]
+    except Exception as e:
+        if isinstance(e, (ColumnError, EngineError)) or is_order_loss(e):
+            stats.c["bare:refused"] += 1
+            return
+        raise Violation("bare-build-raised", f"{type(e).__name__}: {str(e)[:200]}; {ctx}", sig=exc_sig(e))
+    for what, rel in probes:
+        try:
+            out = proc.process(rel)
+        except DatabaseError:
+            return
+        except Exception as e:
+            raise Violation("process-raised", f"process() of {what} raised {type(e).__name__}: {str(e)[:300]}; {ctx}", sig=exc_sig(e), call="bare")
+        if set(out.columns) != set(rel.columns) or out.engine is not bare:
+            raise Violation("result-columns", f"process() of {what}: columns {set(out.columns)} / engine {out.engine}; {ctx}")
+        if rel is doomed:
+            continue
+        if out.max_rows == 0 or out.is_join_identity:
+            # statically trivial: an engine without payloads for doomed / join-identity relations has nothing to attach
+            bad = compare(truth, [] if out.max_rows == 0 else [{}])
+            if bad:
+                raise Violation("rows-differ", f"process() of {what} returned a statically trivial relation {str(out)[:200]}: {bad}; {ctx}", call="bare")
+            continue
+        node = out
+        while node.payload is None and isinstance(node, MarkerRelation):
+            node = node.target
+        if node.payload is None:
+            # the chain with a statically empty operand is documented to be pruned down to the processed transfer
+            raise Violation("bare-no-payload", f"process() of {what} returned {str(out)[:200]}, which is not statically trivial and carries no payload; {ctx}")
+        got = [dict(r) for r in node.payload]
+        bad = compare(truth, got)
+        if bad:
+            raise Violation("rows-differ", f"process() of {what}: payload of the processed transfer: {bad}; {ctx}", call="bare")
+        stats.c["bare:compared"] += 1
+
+
 def evaluable_nodes(rel):
     """Nodes an engine has to look at to evaluate `rel`: the walk stops below any node that carries a payload."""
     from lsst.daf.relation import BinaryOperationRelation, MarkerRelation, UnaryOperationRelation
@@ -441,6 +492,8 @@ def run_case(case, stats):
         if "mark" not in kinds(prog):
             # (backtracking through a user-defined marker is not implemented by the iteration engine; not this property)
             refine_processed(prog, leaves, universe, result, env, proc, stats, ctx)
+        if not mode and tree.engine is not env.sql and ncalls == 1:
+            bare_engine_probe(tree, truth, env, proc, stats, ctx)
         # hook audit
         per_name = {}
         for idx, (hook, rel, dest, name) in enumerate(proc.log):
